@@ -81,7 +81,7 @@ func setClientSubnet(req *bfe_basic.Request, dnsMsg *dns.Msg) {
 
 	var family uint16 = 1
 	var sourceNetmask uint8 = 32
-	if cip.To16() != nil {
+	if cip.To4() == nil {
 		family = 2
 		sourceNetmask = 128
 	}
